@@ -70,8 +70,15 @@ Definition conforms (text : str) (w : lnarsese) : bool :=
 (* class 0: the text is a sentence of the grammar with the kind and tree the library's parser returned;
    classes 1 and 2: it is not (this is what makes K4 a finding and class 2 a domain restriction; a
    text of these classes that did conform would be a flaw of the class predicate) *)
+(* class 3 has one conforming corner: a name made of underscores only (`__` is `"_"+` for the grammar and
+   Atom("_","_") for the library, and the conversion of the parse tree says exactly that) *)
+Definition underscore_names_only (w : lnarsese) : bool :=
+  forallb (fun a => negb (str_eqb (fst a) [95]) || forallb (N.eqb 95) (snd a)) (lterm_atoms (lnarsese_term w)).
 Definition verdict (tag : N) (text : str) (w : lnarsese) : bool :=
-  (class_of w =? tag) && (if tag =? 0 then conforms text w else negb (conforms text w)).
+  (class_of w =? tag) &&
+  (if tag =? 0 then conforms text w
+   else if tag =? 3 then Bool.eqb (conforms text w) (underscore_names_only w)
+   else negb (conforms text w)).
 
 Inductive rcase :=
 (* an enum value, the Display table of its floats, the text FORMAT_ASCII.format_narsese printed,
